@@ -93,7 +93,7 @@ def run_corr(ctx, cases, H):
     dis = []
     for st, d in par.pmap(corr_chunk, work, ctx.jobs):
         for k in st:
-            tot[k] += st[k]
+            tot[k] = tot.get(k, 0) + st[k]
         dis += d
     return tot, dis
 
